@@ -586,3 +586,106 @@ Theorem shuffle_taxa_nonvacuous :
         T 4 None None (Some 2) [T 5 (Some 10) None (Some 2) []; T 6 None None (Some 4) []]])).
 Proof. exact shuffle_taxa_example. Qed.
 Print Assumptions shuffle_taxa_nonvacuous.
+
+(* ---- wave 7: OBJECT level of the stored encoding (Model/C03BipObj.v).  A Bipartition object is a cell of a
+   store (identity -> _split_bitmask, _leafset_bitmask, _is_rooted); edge.bipartition is a binding node ->
+   identity; Tree.bipartition_encoding a list of identities.
+     no_bip_shared s t = no two edges of t carry one object /\ the list holds exactly the edges' objects,
+                         once each, in post-order
+     enc_fresh s r t   = per edge and per list entry, the fields a fresh encoding of t under flag r gives
+                         (enc_full: split mask by compile_split_bitmask from the flag, leafset mask, flag) ---- *)
+From DV Require Import Model.C03BipObj Proofs.C03BipObj.
+
+(* encode_bipartitions - hence every operation asked to update bipartitions - from ANY state of the store *)
+Theorem encode_no_bipartition_object_shared : forall (r : option bool) (t : tree) (s : bstate),
+  NoDup (ids t) ->
+  (NoDup (edge_objs (obj_encode r t s) t) /\ map Some (bs_enc (obj_encode r t s)) = edge_objs (obj_encode r t s) t) /\
+  (read_edges (obj_encode r t s) t = map (fun p => (fst p, Some (snd p))) (enc_full r t) /\
+   read_enc (obj_encode r t s) = map (fun p => Some (snd p)) (enc_full r t)).
+Proof. exact obj_encode_fresh. Qed.
+Print Assumptions encode_no_bipartition_object_shared.
+
+(* the incremental maintainer deletes by identity; on an unshared current encoding that is exactly the fresh
+   encoding (objects, list, split masks, flags) of the tree it leaves *)
+Theorem suppress_incremental_object_level : forall (r : option bool) (t : tree) (s : bstate),
+  NoDup (ids t) ->
+  let s2 := obj_su_incremental t (obj_encode r t s) in
+  no_bip_shared s2 (spec_su t) /\ enc_fresh s2 r (spec_su t).
+Proof. exact obj_su_incremental_fresh. Qed.
+Print Assumptions suppress_incremental_object_level.
+
+(* reroot_at_node(update_bipartitions=True): reseed_at WITHOUT the flag, is_rooted = True, THEN the encoding *)
+Theorem reroot_at_node_encoding_fresh : forall (t' : tree) (s : bstate),
+  NoDup (ids t') ->
+  let rs := obj_reroot_at_node true t' s in
+  fst rs = Some true /\ no_bip_shared (snd rs) t' /\ enc_fresh (snd rs) (fst rs) t'.
+Proof. exact reroot_at_node_obj_fresh. Qed.
+Print Assumptions reroot_at_node_encoding_fresh.
+
+(* the other order (update_bipartitions passed through to reseed_at, flag set afterwards) is NOT fresh on a
+   tree that is unrooted or of undefined rooting, although no object is shared; on a rooted tree it is the same *)
+Theorem reroot_at_node_encode_before_flag_refuted : exists (r0 : option bool) (t' : tree) (s : bstate),
+  NoDup (ids t') /\
+  let rs := obj_reroot_at_node_early true r0 t' s in
+  fst rs = Some true /\ no_bip_shared (snd rs) t' /\ ~ enc_fresh (snd rs) (fst rs) t'.
+Proof. exact C03BipObj.reroot_at_node_encode_before_flag_refuted. Qed.
+Print Assumptions reroot_at_node_encode_before_flag_refuted.
+
+Theorem reroot_at_node_encode_before_flag_refuted_undefined_rooting : exists (t' : tree) (s : bstate),
+  NoDup (ids t') /\ ~ enc_fresh (snd (obj_reroot_at_node_early true None t' s)) (Some true) t'.
+Proof. exact reroot_at_node_encode_before_flag_refuted_none. Qed.
+Print Assumptions reroot_at_node_encode_before_flag_refuted_undefined_rooting.
+
+Theorem reroot_at_node_orders_agree_when_rooted : forall (ub : bool) (t' : tree) (s : bstate),
+  obj_reroot_at_node_early ub (Some true) t' s = obj_reroot_at_node ub t' s.
+Proof. exact reroot_at_node_early_same_when_rooted. Qed.
+Print Assumptions reroot_at_node_orders_agree_when_rooted.
+
+(* an encoding that binds a retained unifurcation's edge to its child's object: every VALUE is right, the
+   invariant is not, and the later suppress_unifurcations(update_bipartitions=True) loses a live entry *)
+Theorem shared_bipartition_object_refuted : exists (r : option bool) (t : tree) (s : bstate),
+  NoDup (ids t) /\ ~ no_bip_shared (obj_encode_shared r t s) t.
+Proof. exact shared_encoding_refuted. Qed.
+Print Assumptions shared_bipartition_object_refuted.
+
+Theorem shared_bipartition_object_values_right :
+  read_edges (obj_encode_shared (Some true) shared_witness bs_empty) shared_witness
+  = read_edges (obj_encode (Some true) shared_witness bs_empty) shared_witness.
+Proof. exact shared_encoding_values_right. Qed.
+Print Assumptions shared_bipartition_object_values_right.
+
+Theorem shared_bipartition_object_later_suppress_refuted :
+  let t := shared_witness in
+  read_enc (obj_su_incremental t (obj_encode_shared (Some true) t bs_empty))
+  <> map (fun p => Some (snd p)) (enc_full (Some true) (spec_su t)).
+Proof. exact shared_then_incremental_refuted. Qed.
+Print Assumptions shared_bipartition_object_later_suppress_refuted.
+
+(* frame: an encoding writes no object that existed before, and rebinds no edge outside the tree *)
+Theorem encode_frame_objects : forall (r : option bool) (t : tree) (s : bstate) (o : Z),
+  o < bs_next s -> obj_rec (obj_encode r t s) o = obj_rec s o.
+Proof. exact obj_encode_frame_objects. Qed.
+Print Assumptions encode_frame_objects.
+
+Theorem encode_frame_edges : forall (r : option bool) (t : tree) (s : bstate) (n : Z),
+  ~ In n (ids t) -> edge_obj (obj_encode r t s) n = edge_obj s n.
+Proof. exact obj_encode_frame_edges. Qed.
+Print Assumptions encode_frame_edges.
+
+(* over every history of updating / non-updating steps from any initial store *)
+Theorem bipartition_objects_history : forall (steps : list ostep) (st0 : ost) (x : ostep),
+  let st := fold_left ostep_run steps st0 in
+  NoDup (ids (o_tree st)) ->
+  match x with SUpdate t' _ => NoDup (ids t') | _ => True end ->
+  updating x = true ->
+  let st' := ostep_run st x in
+  no_bip_shared (o_bs st') (o_tree st') /\ enc_fresh (o_bs st') (o_rooted st') (o_tree st').
+Proof. exact obj_history_fresh. Qed.
+Print Assumptions bipartition_objects_history.
+
+Theorem bipartition_objects_history_nonvacuous :
+  let t := shared_witness in
+  let st := fold_left ostep_run [SUpdate t None; SEdit t (Some false); SSuIncr] (mkOst t None bs_empty) in
+  NoDup (ids (o_tree st)) /\ read_enc (o_bs st) = map (fun p => Some (snd p)) (enc_full (Some false) (spec_su t)).
+Proof. exact obj_history_fresh_sat. Qed.
+Print Assumptions bipartition_objects_history_nonvacuous.
